@@ -134,6 +134,18 @@ class World:
         self.edefs: Dict[Tuple[int, int], Any] = {}
         self.fmt: Dict[Tuple[int, int], str] = {}
         self.drivers: Dict[str, Any] = {}
+        # twin devices (dep["twin"] = {"B": "A"}): B is a second INSTANCE of A's driver class under another name; its vectors and
+        # groups are reached through the attribute names of A's class
+        self.va: Dict[int, int] = {}
+        self.ga: Dict[int, int] = {}
+        for b, a in dep.get("twin", {}).items():
+            ga = [gi for gi, g in enumerate(dep["grps"], start=1) if g["dev"] == a]
+            gb = [gi for gi, g in enumerate(dep["grps"], start=1) if g["dev"] == b]
+            vas = [vi for vi, q in enumerate(dep["vecs"], start=1) if q["dev"] == a]
+            vbs = [vi for vi, q in enumerate(dep["vecs"], start=1) if q["dev"] == b]
+            assert len(ga) == len(gb) and len(vas) == len(vbs)
+            self.ga.update(zip(gb, ga))
+            self.va.update(zip(vbs, vas))
         self._build()
         for vi, vv in enumerate(dep["vecs"], start=1):
             try:
@@ -189,7 +201,14 @@ class World:
             vs = {"vec%d" % vi: vdefs[vi] for vi, v in enumerate(dep["vecs"], start=1) if v["grp"] == gi}
             gdefs[gi] = properties.Group(g["name"], enabled=dep["gen0"][gi - 1], vectors=vs) if vs else None
         world = self
+        for vb, va_ in self.va.items():
+            for ei in range(1, len(dep["vecs"][vb - 1]["elems"]) + 1):
+                if (va_, ei) in self.fmt:
+                    self.fmt[(vb, ei)] = self.fmt[(va_, ei)]
         for dname in dep["devorder"]:
+            if dname in dep.get("twin", {}):
+                self.drivers[dname] = type(self.drivers[dep["twin"][dname]])(name=dname, router=self.router)
+                continue
             ns: Dict[str, Any] = {"name": dname}
             for gi, g in enumerate(dep["grps"], start=1):
                 if g["dev"] == dname and gdefs[gi] is not None:
@@ -273,7 +292,7 @@ class World:
     # ---- access
     def vec(self, vi: int):
         v = self.dep["vecs"][vi - 1]
-        return getattr(self.drivers[v["dev"]].get_group("grp%d" % v["grp"]), "vec%d" % vi)
+        return getattr(self.drivers[v["dev"]].get_group("grp%d" % self.ga.get(v["grp"], v["grp"])), "vec%d" % self.va.get(vi, vi))
 
     def elem(self, vi: int, ei: int):
         return getattr(self.vec(vi), "el%d" % ei)
@@ -288,7 +307,7 @@ class World:
             ven.append(bool(vec.enabled))
         gen = []
         for gi, g in enumerate(dep["grps"], start=1):
-            grp = self.drivers[g["dev"]].get_group("grp%d" % gi)
+            grp = self.drivers[g["dev"]].get_group("grp%d" % self.ga.get(gi, gi))
             gen.append(bool(grp.enabled) if grp is not None else dep["gen0"][gi - 1])
         return {"val": val, "vst": vst, "ven": ven, "gen": gen}
 
@@ -354,7 +373,7 @@ class World:
                 self.vec(ev["v"]).enabled = ev["b"]
             elif o == "gen":
                 g = dep["grps"][ev["g"] - 1]
-                self.drivers[g["dev"]].get_group("grp%d" % ev["g"]).enabled = ev["b"]
+                self.drivers[g["dev"]].get_group("grp%d" % self.ga.get(ev["g"], ev["g"])).enabled = ev["b"]
             elif o == "sel":
                 self.vec(ev["v"]).selected_values = list(ev["names"])
             elif o == "read":
@@ -442,8 +461,25 @@ def switch_dep(rule: str, n: int, ini: List[str]) -> dict:
             "grps": [{"dev": "A", "name": "G"}], "hs": [], "devorder": ["A"], "val0": [ini], "vst0": ["Ok"], "ven0": [True], "gen0": [True]}
 
 
-def random_dep(r) -> dict:
-    devs = ["A", "B", "C"][: r.randint(1, 3)]
+def twin_dep(r) -> dict:
+    """two instances of ONE driver class under different names (no handlers): state, indexes and caches kept on the class or
+    on the shared definitions instead of on the instance make a message for one device act on the other"""
+    dep = random_dep(r, devs=["A"])
+    dep["hs"] = []
+    ng, nv = len(dep["grps"]), len(dep["vecs"])
+    dep["grps"] += [{**g, "dev": "B"} for g in dep["grps"]]
+    dep["vecs"] += [{**q, "dev": "B", "grp": q["grp"] + ng, "elems": list(q["elems"]), "een": list(q["een"])} for q in dep["vecs"][:nv]]
+    for k in ("val0", "vst0", "ven0"):
+        dep[k] += [list(x) if isinstance(x, list) else x for x in dep[k][:nv]]
+    dep["gen0"] += list(dep["gen0"][:ng])
+    dep["devorder"] = ["A", "B"]
+    dep["inherit"]["B"] = dep["inherit"]["A"]
+    dep["twin"] = {"B": "A"}
+    return dep
+
+
+def random_dep(r, devs=None) -> dict:
+    devs = devs or ["A", "B", "C"][: r.randint(1, 3)]
     vecs, grps, val0, vst0, ven0, gen0 = [], [], [], [], [], []
     # a vector name determines its kind, so that a write broadcast to all devices meets vectors of one kind only
     names_by_kind = {"text": ["TXT", "NOTE", "INFO"], "number": ["NUM", "POS", "TEMP"], "switch": ["SW", "MODE", "CONN"],
@@ -613,7 +649,7 @@ def run_trace(dep: dict, ops_fn) -> dict:
             if evs and evs[-1]["obs"]["ntasks"] >= 5 and o["o"] != "tick":
                 evs.append(w.apply({"o": "tick"}))        # the event loop gets to run: pending coroutine handlers execute
             evs.append(w.apply(o))
-        return {"dep": {k: dep[k] for k in ("vecs", "grps", "hs", "devorder", "val0", "vst0", "ven0", "gen0", "inherit") if k in dep}, "ev": evs}
+        return {"dep": {k: dep[k] for k in ("vecs", "grps", "hs", "devorder", "val0", "vst0", "ven0", "gen0", "inherit", "twin") if k in dep}, "ev": evs}
     finally:
         w.close()
 
@@ -757,14 +793,35 @@ def run(prop: str, tier: str) -> int:
         v.notes["switch_transitions_replayed"] = len(traces)
         v.exhaustive = True
     ndep = {"quick": 120, "thorough": 2500}[tier]
-    for _ in range(ndep):
-        dep = random_dep(r)
+    for di in range(ndep):
+        dep = random_dep(r)        # twin_dep(r) is NOT used yet: the trace spec resolves properties by name and rejects correct twin runs (DESIGN 13.5)
         if prop == "C09" and not any(x["kind"] == "switch" for x in dep["vecs"]):
             continue
         try:
             traces.append(run_trace(dep, lambda w, dep=dep: random_ops(r, dep, r.randint(8, 30), w)))
         except DeploymentBroken as e:
             v.violation(str(e), {"kind": "deployment", "what": str(e)})
+    if prop == "C07":
+        # every sequence of three enable / disable assignments to one vector and its group, then getProperties by device and by
+        # name: the reply is decided by the vector's OWN flag and the group's flag, whatever order they were set in
+        import itertools
+        nseq = 0
+        for _ in range({"quick": 5, "thorough": 60}[tier]):
+            dep = random_dep(r)
+            dep["hs"] = []
+            vi = r.randint(1, len(dep["vecs"]))
+            q = dep["vecs"][vi - 1]
+            alphabet = [{"o": "ven", "v": vi, "b": True}, {"o": "ven", "v": vi, "b": False},
+                        {"o": "gen", "g": q["grp"], "b": True}, {"o": "gen", "g": q["grp"], "b": False}]
+            for seq in itertools.product(alphabet, repeat=3):
+                ops = [dict(o) for o in seq] + [{"o": "get", "t": q["dev"], "n": NONE}, {"o": "get", "t": q["dev"], "n": q["name"]}]
+                try:
+                    traces.append(run_trace(dep, lambda w, ops=ops: ops))
+                    nseq += 1
+                except DeploymentBroken as e:
+                    v.violation(str(e), {"kind": "deployment", "what": str(e)})
+                    break
+        v.notes["enable_sequences_replayed"] = nseq
     if prop in ("C14", "C06"):
         # every exclusive-rule configuration of two switches with a vetoing Write handler: a vetoed write changes nothing at all
         traces += [t for t in switch_traces("veto-only")]
